@@ -72,7 +72,7 @@ def main():
         ],
         'checks': checks,
         'not_applicable': na,
-        'notes': 'Repairs of genuine defects found by these checks are the "fix:" commits in /repo; see known_findings.json (fixed entries) and DESIGN.md section 6.',
+        'notes': 'Repairs of genuine defects found by these checks are the "fix:" commits in /repo; see known_findings.json (fixed entries) and DESIGN.md section 11.5.',
     }
     json.dump(m, open(os.path.join(VERIF, 'MANIFEST.json'), 'w'), indent=1)
     print('claimed', sorted(claimed))
